@@ -32,6 +32,10 @@ func c18Payloads() []c18Payload {
 		{"sq-break", func(n int) string { return fmt.Sprintf(`' vfa%d=1 x='`, n) }},
 		{"dq-attr", func(n int) string { return fmt.Sprintf(`" vfa%d=1 x="`, n) }},
 		{"plain-element", func(n int) string { return el(n) }},
+		// starts with a tag that content sniffing recognises: a reply that declares no
+		// type and begins with this text is rendered as HTML by browsers (and net/http)
+		{"sniffable-start", func(n int) string { return "<b>" + el(n) }},
+		{"sniffable-start-ws", func(n int) string { return " \n<p " + fmt.Sprintf("vfa%d=1>", n) + el(n) }},
 		{"title-close", func(n int) string { return `</title>` + el(n) }},
 		{"comment-close", func(n int) string { return `-->` + el(n) }},
 		{"script-close", func(n int) string { return `</script>` + el(n) }},
@@ -150,6 +154,7 @@ var c18Benign = map[string]string{"user": "alice", "username": "alice", "passwor
 	"identity": vfAutoUser, "requestor_netblock": "10.9.0.0/16", "target_netblock": "10.10.0.0/16", "port": "12345", "grant_type": "authorization_code", "code": "not-a-code"}
 
 type c18Point struct {
+	Bare    bool   `json:"bare_name,omitempty"` // the user name is the payload itself, not zz+payload
 	Route   string `json:"route"`
 	Path    string `json:"path"`
 	Method  string `json:"method"`
@@ -231,7 +236,7 @@ func init() {
 	vfRegister(&vfeng.Check{
 		ID:    "C18",
 		Level: "model_checking",
-		Rule:  "exhaustive product route (extracted from main()) x session kind (none, password, full, administrator with and without hardware token) x method x request-controlled field (every form field any handler reads, path suffix, raw query, headers, cookies, absolute-form authority, Host, and the session's own user name) x canary payload on the real handlers; every text/html response is parsed with golang.org/x/net/html and must contain no canary-named element or attribute; class = (route, html/non-html status, reflected inert/no)",
+		Rule:  "exhaustive product route (extracted from main()) x session kind (none, password, full, administrator with and without hardware token) x method x request-controlled field (every form field any handler reads, path suffix, raw query, headers, cookies, absolute-form authority, Host, and the session's own user name, embedded in a longer name and as the whole name, with the user's CLI token in the request) x canary payload on the real handlers; every text/html response is parsed with golang.org/x/net/html and must contain no canary-named element or attribute; class = (route, html/non-html status, reflected inert/no)",
 		Assumptions: []string{"an HTML5 parser (x/net/html) stands for the browser's parser", "stored fields are limited to what the real input filters admit (checked by attempting to store payloads through the real admin handlers)"},
 		Bounds: func(tier string) map[string]interface{} {
 			return map[string]interface{}{"payloads": len(c18Payloads()), "fields": len(c18Fields()) + 11}
@@ -283,8 +288,15 @@ func init() {
 			}
 			// sessions whose USER NAME is the payload (a backend that knows such a name):
 			// every route, GET and POST, with a profile that has tokens so that the token pages render
-			for k, pl := range payloads {
+			for k2, pl := range append(append([]c18Payload{}, payloads...), payloads...) {
+				k := k2 % len(payloads)
+				// the payload inside a name, and the payload AS the name (a reply that starts
+				// with the name and declares no type is sniffed by the browser)
 				name := strings.ToLower("zz" + pl.Make(6000+k))
+				if k2 >= len(payloads) {
+					name = strings.ToLower(pl.Make(6000 + k))
+				}
+				cliTok, _ := w.state.generateAuthJWT(name)
 				for ri, rt := range w.routes {
 					i++
 					if !c.Mine(i) {
@@ -297,9 +309,9 @@ func init() {
 					}
 					ck := w.vfCookie(name, AuthTypePassword|AuthTypeTOTP|AuthTypeU2F)
 					for _, method := range []string{"GET", "POST"} {
-						resp := w.Do(vfReq{Method: method, Path: rt.Pattern, Cookies: []*http.Cookie{ck}, Header: map[string]string{"Accept": "text/html,application/xhtml+xml", "User-Agent": "Mozilla/5.0 Chrome/100.0"}, Form: url.Values{"x": {"y"}}}.Build())
+						resp := w.Do(vfReq{Method: method, Path: rt.Pattern, Cookies: []*http.Cookie{ck}, Header: map[string]string{"Accept": "text/html,application/xhtml+xml", "User-Agent": "Mozilla/5.0 Chrome/100.0"}, Form: url.Values{"x": {"y"}, "token": {cliTok}, "port": {"12345"}}}.Build())
 						c.Eval(1)
-						p := c18Point{Route: rt.Name, Path: rt.Pattern, Method: method, Session: "user-named-payload", Field: "@username", Payload: pl.Name, N: 6000 + k}
+						p := c18Point{Route: rt.Name, Path: rt.Pattern, Method: method, Session: "user-named-payload", Field: "@username", Payload: pl.Name, N: 6000 + k, Bare: k2 >= len(payloads)}
 						if !c18IsHTML(resp) {
 							c.Class(fmt.Sprintf("%s|username|non-html-%d", rt.Name, resp.Code), p)
 							continue
@@ -348,10 +360,14 @@ func init() {
 					}
 				}
 				name := strings.ToLower("zz" + pl)
+				if p.Bare {
+					name = strings.ToLower(pl)
+				}
 				w.vfGiveTOTP(name, 1)
 				w.vfGiveU2F(name, 1)
 				ck := w.vfCookie(name, AuthTypePassword|AuthTypeTOTP|AuthTypeU2F)
-				resp := w.Do(vfReq{Method: p.Method, Path: p.Path, Cookies: []*http.Cookie{ck}, Header: map[string]string{"Accept": "text/html,application/xhtml+xml", "User-Agent": "Mozilla/5.0 Chrome/100.0"}, Form: url.Values{"x": {"y"}}}.Build())
+				cliTok, _ := w.state.generateAuthJWT(name)
+				resp := w.Do(vfReq{Method: p.Method, Path: p.Path, Cookies: []*http.Cookie{ck}, Header: map[string]string{"Accept": "text/html,application/xhtml+xml", "User-Agent": "Mozilla/5.0 Chrome/100.0"}, Form: url.Values{"x": {"y"}, "token": {cliTok}, "port": {"12345"}}}.Build())
 				if c18IsHTML(resp) {
 					if hit := c18Scan(resp.Body); hit != "" {
 						return true, fmt.Sprintf("C18|markup-injection|%s|field=@username :: %s", p.Route, hit)
